@@ -2039,7 +2039,8 @@ public:
     SBEPP_CPP14_CONSTEXPR random_access_iterator&
         operator+=(difference_type n) noexcept
     {
-        ptr += n * block_length;
+        ptr += static_cast<std::ptrdiff_t>(n)
+               * static_cast<std::ptrdiff_t>(block_length);
         index += n;
         return *this;
     }
